@@ -6,7 +6,7 @@ META = {
     "engine": "ConcGo",
     "technique": "TLA+ interpreter of Go's goroutine/channel semantics (ConcGo.tla); TLC explores every schedule of each generated program and decides deadlock-freedom, panic-freedom and output determinism, yielding the unique expected output; the programs are run on the real VM (go statement allowed) under several GOMAXPROCS and hook-injected yields with the race detector; outputs judged by a TLC Trace spec",
     "level": "model_checking",
-    "level_text": "For each seeded batch of concurrent programs (pipelines, fan-in, fan-out, select fan-in, ping-pong, buffered/unbuffered, close/range, plus deliberately broken variants), TLC explores ALL schedules of the ConcGo model: programs that can deadlock, panic or print schedule-dependent output are discarded as outside the property's domain, for the others the unique output over all schedules is the expected output. Each valid program is built by the real scriggo and run under GOMAXPROCS 1/2/4/16 with seeded yields injected at the channel hooks, in a -race build; every run's printed output must equal the model's output and the race detector must stay silent.",
+    "level_text": "For each seeded batch of concurrent programs (pipelines, fan-in, fan-out, select fan-in, select statements with several send cases and receive cases, ping-pong, buffered/unbuffered, close/range, plus deliberately broken variants), TLC explores ALL schedules of the ConcGo model: programs that can deadlock, panic or print schedule-dependent output are discarded as outside the property's domain, for the others the unique output over all schedules is the expected output. Each valid program is built by the real scriggo and run under GOMAXPROCS 1/2/4/16 with seeded yields injected at the channel hooks, in a -race build; every run's printed output must equal the model's output and the race detector must stay silent.",
     "level_note": "Trusted: TLC, the concretiser (record -> Go source, string templates), Go's race detector for data races (the spec supplies the programs and yield points, not race detection itself). gc itself is not run on the passing path: the Go semantics is the TLA+ model. sync/time-based programs are not generated.",
     "design_ref": "7/C14",
 }
@@ -16,7 +16,7 @@ FAMS = ["concgo"]
 # ------------------------------------------------------------------ seeded generator of shapes
 def gen_programs(rng, n):
     out = []
-    shapes = [pipeline, fanin, fanout, selectfanin, buffered_only, pingpong, waitgroup, closer, natburst]
+    shapes = [pipeline, fanin, fanout, selectfanin, buffered_only, pingpong, waitgroup, closer, natburst, selectsend]
     for i in range(n):
         f = shapes[i % len(shapes)]
         p = f(rng)
@@ -90,6 +90,29 @@ def selectfanin(rng):
     main = [I("go", t=2), I("go", t=3)] + [I("selrecv", chs=[1, 2]) for _ in range(na + nb)] + [I("print")]
     threads[0] = main
     return {"chans": chans, "threads": threads}
+
+
+def selectsend(rng):
+    """select statements with several send cases (each with its own value) and possibly receive cases"""
+    a, b = rng.choice([(11, 22), (22, 11), (5, 700)])
+    kind = rng.randint(0, 2)
+    if kind == 0:
+        # only one case can proceed: a buffered channel with room and an unbuffered one nobody receives from
+        order = rng.choice([[1, 2], [2, 1]])
+        vs = {1: a, 2: b}
+        main = [I("selsend", chs=[], schs=order, vs=[vs[c] for c in order]), I("recvp", ch=1), I("printc", v=3)]
+        return {"chans": [1, 0], "threads": [main]}
+    if kind == 1:
+        # two buffered channels of capacity one: the second select must take the other case
+        sel = I("selsend", chs=[], schs=[1, 2], vs=[a, b])
+        main = [sel, dict(sel), I("recvp", ch=1), I("recvp", ch=2)]
+        return {"chans": [1, 1], "threads": [main]}
+    # two workers each receive once and send back what they got; main sends and collects with one select
+    cap3 = rng.choice([0, 2])
+    sel = I("selsend", chs=[3], schs=[1, 2], vs=[a, b])
+    threads = [[I("go", t=2), I("go", t=3)] + [dict(sel) for _ in range(4)] + [I("print")],
+               [I("recv", ch=1), I("sendacc", ch=3)], [I("recv", ch=2), I("sendacc", ch=3)]]
+    return {"chans": [rng.choice([0, 1]), 0, cap3], "threads": threads}
 
 
 def buffered_only(rng):
